@@ -1,4 +1,4 @@
-import H2V.Lemmas.ConnRecvPInv
+import H2V.Lemmas.ConnRecvPTacInv
 import H2V.Lemmas.ConnRecvPRecv
 /-
   C03 — part 6: the receive flow-control operations of `ConnRecv.lean` preserve the invariant
@@ -122,6 +122,26 @@ theorem InvD.modStream {full : Bool} {g : Ghost} {d d' : Int} {s : Streams} (id 
     exact h.setStream (by rw [hxk]; exact hx) (hk x) (hsum x hx) (fun hf => hok hf x hx)
   · next hn => exact (h.weaken (hd hn)).of_ext (panic_ext _ _)
 
+theorem StreamOK.of_ghost {s : Streams} {g g' : Ghost} {x : Stream} (hg : g'.hiInit = g.hiInit) (h : StreamOK s g x) :
+    StreamOK s g' x :=
+  ⟨h.wI32, h.aI32, h.wa, by rw [hg]; exact h.live, h.bud⟩
+
+/-- replace the connection's receive `FlowControl` and `in_flight_data` (and the configured target) -/
+theorem InvD.setConn' {full : Bool} {g : Ghost} {d d' : Int} {s : Streams} (h : InvD full g d s) (g' : Ghost)
+    (hgi : g'.hiInit = g.hiInit)
+    (f : Recv → Recv) (hinit : (f s.recv).initWindowSz = s.recv.initWindowSz)
+    (hw : inI32 (f s.recv).flow.windowSize.val = true) (ha : inI32 (f s.recv).flow.available.val = true)
+    (hcons : (f s.recv).flow.available.val + ((f s.recv).inFlightData : Int) = (g'.target : Int))
+    (hw0 : 0 ≤ (f s.recv).flow.windowSize.val)
+    (hwhi : (f s.recv).flow.windowSize.val + ((f s.recv).inFlightData : Int) ≤ (g'.hiTarget : Int))
+    (htHi : g'.target ≤ g'.hiTarget) (hmax : g'.hiTarget ≤ 2147483647)
+    (hsum : (sumInfl s.store.slab : Int) + d' ≤ ((f s.recv).inFlightData : Int)) :
+    InvD full g' d' (s.modRecv f) :=
+  ⟨h.keys, hw, ha, hcons, hw0, hwhi, htHi, hmax, hsum,
+   by show (f s.recv).initWindowSz ≤ _; rw [hinit, hgi]; exact h.initHi,
+   by rw [hgi]; exact h.initMax,
+   fun hf x hx => StreamOK.of_ghost hgi (StreamOK.of_same (s := s) rfl hinit (h.streams hf x hx))⟩
+
 /-- replace the connection's receive `FlowControl` and `in_flight_data` -/
 theorem InvD.setConn {full : Bool} {g : Ghost} {d d' : Int} {s : Streams} (h : InvD full g d s)
     (f : Recv → Recv) (hinit : (f s.recv).initWindowSz = s.recv.initWindowSz)
@@ -131,8 +151,7 @@ theorem InvD.setConn {full : Bool} {g : Ghost} {d d' : Int} {s : Streams} (h : I
     (hwhi : (f s.recv).flow.windowSize.val + ((f s.recv).inFlightData : Int) ≤ (g.hiTarget : Int))
     (hsum : (sumInfl s.store.slab : Int) + d' ≤ ((f s.recv).inFlightData : Int)) :
     InvD full g d' (s.modRecv f) :=
-  ⟨h.keys, hw, ha, hcons, hw0, hwhi, h.tHi, h.hiMax, hsum, by show (f s.recv).initWindowSz ≤ _; rw [hinit]; exact h.initHi,
-   h.initMax, fun hf x hx => StreamOK.of_same (s := s) rfl hinit (h.streams hf x hx)⟩
+  h.setConn' g rfl f hinit hw ha hcons hw0 hwhi h.tHi h.hiMax hsum
 
 /-- `in_flight_data` is a genuine `u32`, with room for what the window still allows -/
 theorem InvD.cI_bound {full : Bool} {g : Ghost} {d : Int} {s : Streams} (h : InvD full g d s) :
@@ -169,7 +188,7 @@ theorem consume_inv {full : Bool} {g : Ghost} {d : Int} {s : Streams} (h : InvD 
   have hW := (inI32_iff _).1 h.wI32
   have hA := (inI32_iff _).1 h.aI32
   have hw0 := h.w0
-  have hwhi := h.wHi
+  have hwhi := h.wI
   have hhi := h.hiMax
   have hcons := h.cons
   have hsum := h.sum
@@ -211,7 +230,7 @@ theorem consume_inv {full : Bool} {g : Ghost} {d : Int} {s : Streams} (h : InvD 
             rcases he.2 with rfl | hpart
             · exact hw0
             · rw [hpart.2.1, hu]; omega
-          · show fl.windowSize.val ≤ _
+          · show fl.windowSize.val + (s.recv.inFlightData : Int) ≤ _
             rcases he.2 with rfl | hpart
             · exact hwhi
             · rw [hpart.2.1, hu]; omega
@@ -225,9 +244,11 @@ theorem consume_inv {full : Bool} {g : Ghost} {d : Int} {s : Streams} (h : InvD 
           cases hp
           have hI : wrapAddU32 s.recv.inFlightData 0 = s.recv.inFlightData := by
             apply wrapAddU32_of_lt; omega
-          refine h.setConn _ rfl h.wI32 h.aI32 ?_ hw0 hwhi ?_
+          refine h.setConn _ rfl h.wI32 h.aI32 ?_ hw0 ?_ ?_
           · show s.recv.flow.available.val + ((wrapAddU32 s.recv.inFlightData 0 : Nat) : Int) = _
             rw [hI]; exact hcons
+          · show s.recv.flow.windowSize.val + ((wrapAddU32 s.recv.inFlightData 0 : Nat) : Int) ≤ _
+            rw [hI]; exact hwhi
           · show _ ≤ ((wrapAddU32 s.recv.inFlightData 0 : Nat) : Int)
             rw [hI]; omega
         · have hok := sendData_ok' (by omega) hp
@@ -241,9 +262,399 @@ theorem consume_inv {full : Bool} {g : Ghost} {d : Int} {s : Streams} (h : InvD 
             rw [hI, hok.2.2.1]; omega
           · show 0 ≤ fl.windowSize.val
             rw [hok.2.1]; omega
-          · show fl.windowSize.val ≤ _
-            rw [hok.2.1]; omega
+          · show fl.windowSize.val + ((wrapAddU32 s.recv.inFlightData sz : Nat) : Int) ≤ _
+            rw [hI, hok.2.1]; omega
           · show _ ≤ ((wrapAddU32 s.recv.inFlightData sz : Nat) : Int)
             rw [hI]; omega
+
+-- ===================================================================== release_connection_capacity
+
+/-- `Recv::release_connection_capacity(cap)`: `available` up by `cap`, `in_flight_data` down by `cap`
+    (no wrap, `assign_capacity` cannot fail) — the slack goes down by `cap` -/
+theorem releaseConnectionCapacity_inv {full : Bool} {g : Ghost} {d : Int} {s : Streams} (h : InvD full g d s)
+    (cap : Nat) (b : Bool) (hc : cap ≤ cI s) :
+    InvD full g (d - cap) (s.releaseConnectionCapacity cap b) ∧
+    (s.releaseConnectionCapacity cap b).store = s.store := by
+  have hb := h.cI_bound
+  have hA := (inI32_iff _).1 h.aI32
+  have hw0 := h.w0
+  have hwhi := h.wI
+  have hhi := h.hiMax
+  have hcons := h.cons
+  have hsum := h.sum
+  have htHi := h.tHi
+  simp only [cW, cA, cI] at hb hA hw0 hwhi hcons hsum hc
+  have hu : u32AsI32 cap = (cap : Int) := u32AsI32_of_lt (by omega)
+  have hsub : wrapSubU32 s.recv.inFlightData cap = s.recv.inFlightData - cap := wrapSubU32_of_le hb.2 hc
+  have hassign : (s.recv.flow.assignCapacity cap).1 = { s.recv.flow with available := ⟨s.recv.flow.available.val + cap⟩ } := by
+    rw [Flow.assignCapacity_eq, hu]
+    have : inI32 (s.recv.flow.available.val + (cap : Int)) = true := by apply inI32_of_range <;> omega
+    simp [this]
+  have key : InvD full g (d - cap)
+      (s.modRecv fun r => { r with inFlightData := wrapSubU32 r.inFlightData cap, flow := (r.flow.assignCapacity cap).1 }) := by
+    refine h.setConn _ rfl ?_ ?_ ?_ ?_ ?_ ?_
+    · show inI32 (s.recv.flow.assignCapacity cap).1.windowSize.val = true
+      rw [hassign]; exact h.wI32
+    · show inI32 (s.recv.flow.assignCapacity cap).1.available.val = true
+      rw [hassign]; apply inI32_of_range <;> simp <;> omega
+    · show (s.recv.flow.assignCapacity cap).1.available.val + ((wrapSubU32 s.recv.inFlightData cap : Nat) : Int) = _
+      rw [hassign, hsub]; simp; omega
+    · show 0 ≤ (s.recv.flow.assignCapacity cap).1.windowSize.val
+      rw [hassign]; exact hw0
+    · show (s.recv.flow.assignCapacity cap).1.windowSize.val + ((wrapSubU32 s.recv.inFlightData cap : Nat) : Int) ≤ _
+      rw [hassign, hsub]; simp; omega
+    · show _ ≤ ((wrapSubU32 s.recv.inFlightData cap : Nat) : Int)
+      rw [hsub]; omega
+  unfold Streams.releaseConnectionCapacity
+  dsimp only
+  split
+  · exact ⟨key.of_ext (notifyTask_ext _), by unfold Streams.notifyTask; split <;> rfl⟩
+  · exact ⟨key, rfl⟩
+
+-- ===================================================================== one stream: release, charge
+
+/-- every stream's `in_flight_recv_data` is at most the connection's, which is at most `2^31-1` -/
+theorem InvD.infl_le {full : Bool} {g : Ghost} {d : Int} {s : Streams} (h : InvD full g d s) (hd : 0 ≤ d)
+    {x : Stream} (hx : x ∈ s.store.slab) : x.inFlightRecvData ≤ cI s ∧ cI s ≤ 2147483647 := by
+  have h1 := le_sumInfl_of_mem hx
+  have h2 := h.sum
+  have h3 := h.wI
+  have h4 := h.w0
+  have h5 := h.hiMax
+  constructor <;> omega
+
+/-- the stream part of `release_capacity(cap)`: `in_flight_recv_data -= cap`, `available += cap` -/
+theorem StreamOK.release {s : Streams} {g : Ghost} {x : Stream} (h : StreamOK s g x) (cap : Nat)
+    (hc : cap ≤ x.inFlightRecvData) (hi : x.inFlightRecvData ≤ 2147483647) (hM : g.hiInit ≤ 2147483647) :
+    StreamOK s g { x with inFlightRecvData := wrapSubU32 x.inFlightRecvData cap,
+                          recvFlow := (x.recvFlow.assignCapacity cap).1 } := by
+  have hu : u32AsI32 cap = (cap : Int) := u32AsI32_of_lt (by omega)
+  have hsub : wrapSubU32 x.inFlightRecvData cap = x.inFlightRecvData - cap := wrapSubU32_of_le (by omega) hc
+  have hA := (inI32_iff _).1 h.aI32
+  have hwa := h.wa
+  rw [Flow.assignCapacity_eq, hu]
+  by_cases hin : inI32 (x.recvFlow.available.val + (cap : Int)) = true
+  · simp only [hin, if_true]
+    refine ⟨h.wI32, hin, ?_, ?_, ?_⟩
+    · show x.recvFlow.windowSize.val ≤ x.recvFlow.available.val + cap; omega
+    · rcases h.live with hcl | hl
+      · exact .inl hcl
+      · right
+        show x.recvFlow.available.val + cap - x.recvFlow.windowSize.val + ((wrapSubU32 x.inFlightRecvData cap : Nat) : Int) ≤ _ ∧
+          x.recvFlow.available.val + cap + ((wrapSubU32 x.inFlightRecvData cap : Nat) : Int) ≤ _
+        rw [hsub]; omega
+    · intro hl
+      rcases h.bud hl with hcl | hr | hb
+      · exact .inl hcl
+      · exact .inr (.inl hr)
+      · right; right
+        show x.recvFlow.available.val + cap + ((wrapSubU32 x.inFlightRecvData cap : Nat) : Int) = _
+        rw [hsub]; omega
+  · simp only [hin]
+    have hclosed : x.state.isClosed = true := by
+      rcases h.live with hcl | hl
+      · exact hcl
+      · exfalso; apply hin; apply inI32_of_range <;> omega
+    exact ⟨h.wI32, h.aI32, h.wa, .inl hclosed, fun _ => .inl hclosed⟩
+
+/-- the stream part of `recv_data`: `FlowControl::send_data(sz)` succeeded (so `sz ≤ window`),
+    `in_flight_recv_data += sz` -/
+theorem StreamOK.charge {s : Streams} {g : Ghost} {x : Stream} (h : StreamOK s g x) (sz : Nat) (fl : FlowControl)
+    (hsd : x.recvFlow.sendData sz = (fl, .ok ())) (hsz : sz ≤ 2147483647)
+    (hi : x.inFlightRecvData + sz < 4294967296) :
+    StreamOK s g { x with recvFlow := fl, inFlightRecvData := wrapAddU32 x.inFlightRecvData sz } := by
+  have hadd : wrapAddU32 x.inFlightRecvData sz = x.inFlightRecvData + sz := wrapAddU32_of_lt hi
+  by_cases h0 : sz = 0
+  · subst h0
+    rw [sendData_zero] at hsd
+    cases hsd
+    have : wrapAddU32 x.inFlightRecvData 0 = x.inFlightRecvData := by rw [hadd]; rfl
+    exact ⟨h.wI32, h.aI32, h.wa, by rw [this]; exact h.live, fun hl => by rw [this]; exact h.bud hl⟩
+  · have hok := sendData_ok (by omega) (by omega) hsd
+    have hok' := sendData_ok' (by omega) hsd
+    have hwa := h.wa
+    refine ⟨hok'.2.2.2.1, hok'.2.2.2.2, ?_, ?_, ?_⟩
+    · show fl.windowSize.val ≤ fl.available.val; rw [hok.2.1, hok.2.2]; omega
+    · rcases h.live with hcl | hl
+      · exact .inl hcl
+      · right
+        show fl.available.val - fl.windowSize.val + ((wrapAddU32 x.inFlightRecvData sz : Nat) : Int) ≤ _ ∧
+          fl.available.val + ((wrapAddU32 x.inFlightRecvData sz : Nat) : Int) ≤ _
+        rw [hadd, hok.2.1, hok.2.2]
+        have := hok.1
+        omega
+    · intro hl
+      rcases h.bud hl with hcl | hr | hb
+      · exact .inl hcl
+      · exact .inr (.inl hr)
+      · right; right
+        show fl.available.val + ((wrapAddU32 x.inFlightRecvData sz : Nat) : Int) = _
+        rw [hadd, hok.2.2]; omega
+
+/-- `in_flight_recv_data` of a closed stream, or of one whose `RecvStream` is gone, may go down
+    without a stream-level credit (`clear_recv_buffer`, `release_closed_capacity`) -/
+theorem StreamOK.drop {s : Streams} {g : Ghost} {x : Stream} (h : StreamOK s g x) (i' : Nat)
+    (hi : i' ≤ x.inFlightRecvData) (hx : i' = x.inFlightRecvData ∨ x.state.isClosed = true ∨ x.isRecv = false) :
+    StreamOK s g { x with inFlightRecvData := i' } := by
+  refine ⟨h.wI32, h.aI32, h.wa, ?_, ?_⟩
+  · rcases h.live with hcl | hl
+    · exact .inl hcl
+    · right
+      show x.recvFlow.available.val - x.recvFlow.windowSize.val + (i' : Int) ≤ _ ∧ x.recvFlow.available.val + (i' : Int) ≤ _
+      omega
+  · intro hl
+    rcases hx with rfl | hcl | hr
+    · exact h.bud hl
+    · exact .inl hcl
+    · exact .inr (.inl hr)
+
+-- ===================================================================== release_capacity
+
+theorem stream_of_store_eq {s s' : Streams} (h : s'.store = s.store) (id : Nat) : s'.stream id = s.stream id := by
+  unfold Streams.stream; rw [h]
+
+theorem stream_of_get?_none {s : Streams} {id : Nat} (h : s.store.get? id = none) :
+    s.stream id = { key := id, id := 0 } := by unfold Streams.stream; rw [h]; rfl
+
+/-- `Recv::release_capacity(cap, stream)` — the application gives `cap` octets back -/
+theorem releaseCapacity_inv {full : Bool} {g : Ghost} {s : Streams} (h : Inv full g s) (id cap : Nat) (b : Bool) :
+    Inv full g (s.releaseCapacity id cap b).1 := by
+  unfold Streams.releaseCapacity
+  split
+  · exact h
+  · next hgt =>
+    have hcap : cap ≤ (s.stream id).inFlightRecvData := by omega
+    -- the connection part, then the stream part
+    have hcI : cap ≤ cI s := by
+      cases hg : s.store.get? id with
+      | none => rw [stream_of_get?_none hg] at hcap; simp at hcap; omega
+      | some x =>
+        rw [stream_eq_of_get? hg] at hcap
+        have := (h.infl_le (Int.le_refl 0) (get?_mem hg).1).1
+        omega
+    obtain ⟨h1, hst1⟩ := releaseConnectionCapacity_inv h cap b hcI
+    have h2 : Inv full g ((s.releaseConnectionCapacity cap b).modStream id fun st =>
+        { st with inFlightRecvData := wrapSubU32 st.inFlightRecvData cap,
+                  recvFlow := (st.recvFlow.assignCapacity cap).1 }) := by
+      refine h1.modStream id _ ?_ (fun _ => rfl) ?_ ?_
+      · intro hn
+        rw [hst1] at hn
+        rw [stream_of_get?_none hn] at hcap
+        simp at hcap; omega
+      · intro x hx
+        rw [hst1] at hx
+        rw [stream_eq_of_get? hx] at hcap
+        have hb := (h.infl_le (Int.le_refl 0) (get?_mem hx).1)
+        have : wrapSubU32 x.inFlightRecvData cap = x.inFlightRecvData - cap := wrapSubU32_of_le (by omega) hcap
+        show ((wrapSubU32 x.inFlightRecvData cap : Nat) : Int) + 0 ≤ _
+        rw [this]; omega
+      · intro hf x hx ok
+        have hx' := hx
+        rw [hst1] at hx'
+        rw [stream_eq_of_get? hx'] at hcap
+        have hb := (h.infl_le (Int.le_refl 0) (get?_mem hx').1)
+        exact ok.release cap hcap (by omega) h.initMax
+    dsimp only
+    generalize ((s.releaseConnectionCapacity cap b).modStream id fun st =>
+        { st with inFlightRecvData := wrapSubU32 st.inFlightRecvData cap,
+                  recvFlow := (st.recvFlow.assignCapacity cap).1 }) = s2 at h2 ⊢
+    inv_auto
+
+-- ===================================================================== clear_recv_buffer / release_closed_capacity
+
+theorem find?_map_key (l : List Stream) (g : Stream → Stream) (hg : ∀ y, (g y).key = y.key) (k : Nat) :
+    (l.map g).find? (·.key == k) = (l.find? (·.key == k)).map g := by
+  induction l with
+  | nil => rfl
+  | cons y l ih =>
+    simp only [List.map_cons, List.find?_cons, hg]
+    split
+    · rfl
+    · exact ih
+
+theorem get?_setStream (s : Streams) (x' : Stream) (k : Nat) :
+    (s.setStream x').store.get? k = (s.store.get? k).map fun y => if y.key == x'.key then x' else y := by
+  show (s.store.slab.map fun y => if y.key == x'.key then x' else y).find? (·.key == k) = _
+  apply find?_map_key
+  intro y
+  split
+  · next h => exact (by simpa using h : y.key = x'.key).symm
+  · rfl
+
+theorem get?_modStream (s : Streams) (id : Nat) (f : Stream → Stream) (hk : ∀ x, (f x).key = x.key) :
+    (s.modStream id f).store.get? id = (s.store.get? id).map f := by
+  unfold Streams.modStream
+  split
+  · next x hx =>
+    rw [get?_setStream, hx]
+    have : (f x).key = id := by rw [hk]; exact (get?_mem hx).2
+    simp [this, (get?_mem hx).2]
+  · next hn => rw [panic_store, hn]; rfl
+
+theorem clearRecvBufferLoop_le (inFlight : Nat) (l : List REvent) (acc : Nat) (c : Counts) (h : acc ≤ inFlight) :
+    (clearRecvBufferLoop inFlight l acc c).1 ≤ inFlight := by
+  induction l generalizing acc c with
+  | nil => exact h
+  | cons e l ih =>
+    cases e <;> unfold clearRecvBufferLoop <;> first | exact ih _ _ h | exact ih _ _ (Nat.min_le_right _ _)
+
+/-- `Recv::clear_recv_buffer(stream)`: buffered DATA is dropped, its octets go back to the
+    CONNECTION window only.  For the stream-level books this needs a stream that is closed or whose
+    `RecvStream` handle is gone (`is_recv == false`) — or nothing in flight -/
+theorem clearRecvBuffer_inv {full : Bool} {g : Ghost} {s : Streams} (h : Inv full g s) (id : Nat) (b : Bool)
+    (hx : full = true → ∀ x, s.store.get? id = some x →
+      x.state.isClosed = true ∨ x.isRecv = false ∨ x.inFlightRecvData = 0) :
+    Inv full g (s.clearRecvBuffer id b) := by
+  unfold Streams.clearRecvBuffer
+  dsimp only
+  cases hl : clearRecvBufferLoop (s.stream id).inFlightRecvData (s.stream id).pendingRecv 0 s.counts with
+  | mk tr c =>
+    have htr : tr ≤ (s.stream id).inFlightRecvData := by
+      have := clearRecvBufferLoop_le (s.stream id).inFlightRecvData (s.stream id).pendingRecv 0 s.counts (Nat.zero_le _)
+      rw [hl] at this; exact this
+    dsimp only
+    have h1 : Inv full g (({ s with counts := c } : Streams).modStream id fun st => { st with pendingRecv := [] }) := by
+      inv_auto
+    have hg1 : (({ s with counts := c } : Streams).modStream id fun st => { st with pendingRecv := [] }).store.get? id =
+        (s.store.get? id).map fun st => { st with pendingRecv := [] } := get?_modStream _ id _ (fun _ => rfl)
+    generalize (({ s with counts := c } : Streams).modStream id fun st => { st with pendingRecv := [] }) = s1 at h1 hg1 ⊢
+    split
+    · next hpos =>
+      have h2 : InvD full g tr (s1.modStream id fun st => { st with inFlightRecvData := wrapSubU32 st.inFlightRecvData tr }) := by
+        refine h1.modStream id _ ?_ (fun _ => rfl) ?_ ?_
+        · intro hn
+          rw [hg1] at hn
+          have : s.store.get? id = none := by cases hs : s.store.get? id <;> simp [hs] at hn ⊢
+          rw [stream_of_get?_none this] at htr
+          simp at htr; omega
+        · intro x1 hx1
+          rw [hg1] at hx1
+          cases hs : s.store.get? id with
+          | none => simp [hs] at hx1
+          | some x =>
+            simp only [hs, Option.map_some, Option.some.injEq] at hx1
+            subst hx1
+            rw [stream_eq_of_get? hs] at htr
+            have hb := (h.infl_le (Int.le_refl 0) (get?_mem hs).1)
+            have : wrapSubU32 x.inFlightRecvData tr = x.inFlightRecvData - tr := wrapSubU32_of_le (by omega) htr
+            show ((wrapSubU32 x.inFlightRecvData tr : Nat) : Int) + tr ≤ (x.inFlightRecvData : Int) + 0
+            rw [this]; omega
+        · intro hf x1 hx1 ok
+          rw [hg1] at hx1
+          cases hs : s.store.get? id with
+          | none => simp [hs] at hx1
+          | some x =>
+            simp only [hs, Option.map_some, Option.some.injEq] at hx1
+            subst hx1
+            rw [stream_eq_of_get? hs] at htr
+            have hb := (h.infl_le (Int.le_refl 0) (get?_mem hs).1)
+            have hsub : wrapSubU32 x.inFlightRecvData tr = x.inFlightRecvData - tr := wrapSubU32_of_le (by omega) htr
+            refine ok.drop _ (by show wrapSubU32 x.inFlightRecvData tr ≤ x.inFlightRecvData; rw [hsub]; omega) ?_
+            rcases hx hf x hs with hc | hr | h0
+            · exact .inr (.inl hc)
+            · exact .inr (.inr hr)
+            · exfalso; omega
+      have hc : tr ≤ cI (s1.modStream id fun st => { st with inFlightRecvData := wrapSubU32 st.inFlightRecvData tr }) := by
+        have hs2 := h2.sum
+        have := sumInfl s1.store.slab
+        omega
+      have h3 := (releaseConnectionCapacity_inv h2 tr b hc).1
+      have : (tr : Int) - tr = 0 := by omega
+      rw [this] at h3
+      exact h3
+    · exact h1
+
+/-- `Recv::release_closed_capacity(stream)` (the last handle of the stream is gone): everything
+    the stream still holds goes back to the connection window -/
+theorem releaseClosedCapacity_inv {full : Bool} {g : Ghost} {s : Streams} (h : Inv full g s) (id : Nat)
+    (hx : full = true → ∀ x, s.store.get? id = some x → x.state.isClosed = true ∨ x.isRecv = false) :
+    Inv full g (s.releaseClosedCapacity id) := by
+  unfold Streams.releaseClosedCapacity
+  dsimp only
+  split
+  · next hne =>
+    -- something in flight: the entry exists
+    cases hs : s.store.get? id with
+    | none =>
+      rw [stream_of_get?_none hs] at hne
+      simp at hne
+    | some x =>
+      have hb := (h.infl_le (Int.le_refl 0) (get?_mem hs).1)
+      rw [stream_eq_of_get? hs]
+      obtain ⟨h1, hst1⟩ := releaseConnectionCapacity_inv h x.inFlightRecvData true hb.1
+      have h2 : Inv full g ((s.releaseConnectionCapacity x.inFlightRecvData true).modStream id fun st =>
+          { st with inFlightRecvData := 0 }) := by
+        refine h1.modStream id _ ?_ (fun _ => rfl) ?_ ?_
+        · intro hn; rw [hst1, hs] at hn; cases hn
+        · intro y hy
+          rw [hst1, hs] at hy; cases hy
+          show ((0 : Nat) : Int) + 0 ≤ _
+          omega
+        · intro hf y hy ok
+          rw [hst1, hs] at hy; cases hy
+          refine ok.drop 0 (Nat.zero_le _) ?_
+          rcases hx hf x hs with hc | hr
+          · exact .inr (.inl hc)
+          · exact .inr (.inr hr)
+      have hg2 := get?_modStream (s.releaseConnectionCapacity x.inFlightRecvData true) id
+        (fun st => { st with inFlightRecvData := 0 }) (fun _ => rfl)
+      rw [hst1, hs] at hg2
+      generalize ((s.releaseConnectionCapacity x.inFlightRecvData true).modStream id fun st =>
+          { st with inFlightRecvData := 0 }) = s2 at h2 hg2 ⊢
+      exact clearRecvBuffer_inv h2 id true fun _ y hy => by
+        rw [hg2] at hy
+        simp only [Option.map_some, Option.some.injEq] at hy
+        subst hy; exact .inr (.inr rfl)
+  · next he =>
+    have he' : (s.stream id).inFlightRecvData = 0 := by simpa using he
+    exact clearRecvBuffer_inv h id true fun _ y hy => by
+      rw [stream_eq_of_get? hy] at he'; exact .inr (.inr he')
+
+-- ===================================================================== ignore_data / recv_data
+
+theorem consume_err_goaway (s : Streams) (sz : Nat) (e : PErr) (h : (s.consumeConnectionWindow sz).2 = .error e) :
+    ∃ r, e = PErr.libraryGoAway r := by
+  unfold Streams.consumeConnectionWindow at h
+  split at h
+  · cases h; exact ⟨_, rfl⟩
+  · split at h
+    · cases h; exact ⟨_, rfl⟩
+    · cases h
+    · cases h
+
+/-- `Recv::ignore_data(sz)`: DATA for a stream that no longer takes it — consumed and given back
+    to the connection window at once -/
+theorem ignoreData_inv {full : Bool} {g : Ghost} {s : Streams} (h : Inv full g s) (sz : Nat) :
+    Inv full g (s.ignoreData sz).1 := by
+  obtain ⟨-, herr, hok⟩ := consume_inv h sz
+  unfold Streams.ignoreData
+  cases hc : s.consumeConnectionWindow sz with
+  | mk s1 r =>
+    rw [hc] at herr hok
+    dsimp only at herr hok
+    cases r with
+    | error e => exact herr e rfl
+    | ok u =>
+      obtain ⟨h1, -⟩ := hok rfl
+      have hcI : sz ≤ cI s1 := by
+        have := h1.sum
+        have := sumInfl s1.store.slab
+        omega
+      have h2 := (releaseConnectionCapacity_inv h1 sz false hcI).1
+      have : (0 : Int) + sz - sz = 0 := by omega
+      rw [this] at h2
+      exact h2
+
+theorem ignoreData_err_goaway (s : Streams) (sz : Nat) (e : PErr) (h : (s.ignoreData sz).2 = .error e) :
+    ∃ r, e = PErr.libraryGoAway r := by
+  unfold Streams.ignoreData at h
+  cases hc : s.consumeConnectionWindow sz with
+  | mk s1 r =>
+    rw [hc] at h
+    cases r with
+    | error e' =>
+      cases h
+      exact consume_err_goaway s sz _ (by rw [hc])
+    | ok u => cases h
 
 end H2V.Lemmas.ConnRecvP
